@@ -173,7 +173,7 @@ Section StoresProofs.
   Qed.
 
   Lemma no_store_no_change st o : op_store o = None -> fst (sstep st o) = st.
-  Proof. destruct o; simpl; try discriminate. reflexivity. Qed.
+  Proof. destruct o; simpl; try discriminate; reflexivity. Qed.
 
   Lemma local_gen h : forall a b s,
     proj_eq a b s -> store_ok s = true -> forallb op_store_ok h = true ->
